@@ -26,6 +26,7 @@ pub fn run(args: &Args, r: &mut Report) {
         "c11-gone-after-machine-gone",
         "c11-reboot-question-on-demand-justified",
         "c11-on-demand-upgrades-reboot-question",
+        "c11-on-demand-upgrade-is-kept",
         "c11-request-wakes-waiting-machine",
         "c11-scheduled-operation-survives-handle-drop",
     ]);
@@ -66,6 +67,16 @@ pub fn run(args: &Args, r: &mut Report) {
             case.script.decisions.push(*rng.pick(&[Decision::Ok(p), Decision::Ok(p), Decision::OkDeferred(p), Decision::TooSoon, Decision::Throttled, Decision::Denied]));
         }
         case.script.gated = GateCfg { policy: rng.bool(), plan: rng.bool(), install: rng.bool(), reboot: rng.bool() };
+        // scheduling answers of every kind, with and without a minimum wait
+        for _ in 0..30 {
+            let kind = match rng.below(3) {
+                0 => TimeKind::Wall,
+                1 => TimeKind::Mono,
+                _ => TimeKind::Both,
+            };
+            let min_wait_s = if rng.bool() { Some(30 + rng.below(900)) } else { None };
+            case.script.timings.push(TimingSpec { kind, offset_s: 600 + rng.below(3600), min_wait_s });
+        }
         case.shape.push(l);
         case.shape.push(format!("v{}", variant));
         case.max_steps = 12_000;
